@@ -35,8 +35,12 @@ Wrap(c, x) ==
     [] c = 13 -> [n |-> Lit(GoodFor(x), <<R("type", [t |-> "tref", s |-> "@B"])>>), path |-> <<>>]
     [] c = 14 -> [n |-> Obj(<<P(Ka, Lit(NumD(N1), <<R("type", [t |-> "tref", s |-> "@I"])>>)),
                               P(Kb, Lit(GoodFor(x), <<R("type", [t |-> "tref", s |-> "@B"])>>))>>, <<>>), path |-> <<>>]
-Contexts == 0..14
-InType(c) == c >= 10
+    \* a sibling that is a type shortcut (it admits every JSON kind) is checked before the hole
+    [] c = 15 -> [n |-> Obj(<<P(Kb, [t |-> "ref", names |-> <<"@I">>, rules |-> <<>>]), P(Ka, x)>>, <<>>), path |-> <<"a">>]
+    [] c = 16 -> [n |-> Arr(<<[t |-> "ref", names |-> <<"@S", "@I">>, rules |-> <<>>], x>>, <<>>), path |-> <<"1">>]
+Contexts == 0..16
+InType(c) == c \in 10..14
+NonPlain(c) == c \in 10..16                 \* the root's example is not plain JSON (it names types): C04's forward half does not apply
 
 RECURSIVE ExampleOf(_)
 ExampleOf(n) ==
@@ -69,17 +73,20 @@ GoodLeaves == Schemas \cup {Arr(<<Plain1, Plain1>>, <<R("maxItems", NV(N2))>>), 
 VARIABLES leaf, ctx, good
 Init == /\ ctx \in Contexts
         /\ \/ (good = TRUE /\ leaf \in GoodLeaves) \/ (good = FALSE /\ leaf \in BadLeaves)
-        /\ (Level = 1 => (ctx \in {0, 1, 3, 4, 7, 8, 10, 12, 13, 14}))
+        /\ (Level = 1 => (ctx \in {0, 1, 3, 4, 7, 8, 10, 12, 13, 14, 15}))
         /\ (InType(ctx) => leaf.t = "lit")
+        /\ (NonPlain(ctx) => leaf.t \in {"lit", "arr"})
         /\ (ctx \in {13, 14} => GoodSet(leaf) # {})
 Next == UNCHANGED <<leaf, ctx, good>>
 Spec == Init /\ [][Next]_<<leaf, ctx, good>>
 W == Wrap(ctx, leaf)
 EnvC == IF InType(ctx) THEN [Env0 EXCEPT !.types = @ \o <<[name |-> "@B", n |-> leaf]>>] ELSE Env0
 \* what the requirement says about the example of the whole schema (for a value inside a type: about the type's own example)
-SelfVerdict == IF InType(ctx) THEN Verdict(EnvC, leaf, leaf.v, FALSE) ELSE Verdict(Env0, W.n, ExampleOf(W.n), FALSE)
-Emit == PrintT("@@CASE " \o ToJson([schema |-> W.n, env |-> EnvC, good |-> good, path |-> W.path, intype |-> InType(ctx),
-                                   example |-> IF InType(ctx) THEN leaf.v ELSE ExampleOf(W.n), self |-> SelfVerdict]))
+SelfVerdict == IF InType(ctx) THEN Verdict(EnvC, leaf, leaf.v, FALSE)
+               ELSE IF NonPlain(ctx) THEN Verdict(Env0, leaf, ExampleOf(leaf), FALSE)
+               ELSE Verdict(Env0, W.n, ExampleOf(W.n), FALSE)
+Emit == PrintT("@@CASE " \o ToJson([schema |-> W.n, env |-> EnvC, good |-> good, path |-> W.path, intype |-> InType(ctx), plain |-> ~NonPlain(ctx),
+                                   example |-> IF NonPlain(ctx) THEN ExampleOf(leaf) ELSE ExampleOf(W.n), self |-> SelfVerdict]))
 \* the generator is sound with respect to the requirement: good examples obey, corrupted ones do not
 GoodObeys == good => SelfVerdict # "reject"
 BadViolates == ~good => SelfVerdict = "reject"
